@@ -260,13 +260,22 @@ func (f *Frame) selectorsOf(in ssa.Instruction) []string {
 		} else {
 			switch v := cm.Value.(type) {
 			case *ssa.Function:
-				sels = append(sels, "call:"+v.Name())
+				// instances of generic functions and methods are addressed without their type
+				// arguments: (*atomic.Pointer[bloom.Bloom]).Load -> call:Load, call:Pointer.Load
+				fname := v.Name()
+				if i := strings.Index(fname, "["); i >= 0 {
+					fname = fname[:i]
+				}
+				sels = append(sels, "call:"+fname)
 				if recv := v.Signature.Recv(); recv != nil {
 					tn := recv.Type().String()
+					if i := strings.Index(tn, "["); i >= 0 {
+						tn = tn[:i]
+					}
 					if i := strings.LastIndex(tn, "."); i >= 0 {
 						tn = tn[i+1:]
 					}
-					sels = append(sels, "call:"+tn+"."+v.Name())
+					sels = append(sels, "call:"+tn+"."+fname)
 				}
 			case *ssa.Builtin:
 				sels = append(sels, "builtin:"+v.Name())
@@ -1138,6 +1147,7 @@ func (f *Frame) execBlock(b *ssa.BasicBlock, st *State, reach Term) {
 		case *ssa.Alloc:
 			if _, inLoop := f.inAnyLoop(b); !inLoop {
 				c.unescaped[fmt.Sprintf("f%d:%s", f.id, a.Name())] = f.vals[a]
+				c.unescapedT[fmt.Sprintf("f%d:%s", f.id, a.Name())] = a.Type().Underlying().(*types.Pointer).Elem()
 			}
 		case *ssa.MakeMap:
 			if _, inLoop := f.inAnyLoop(b); !inLoop {
